@@ -21,8 +21,10 @@ from mc import tunables
 
 MAX_TOLERATED = tunables.watchdog_max_failures()   # "the tolerated maximum": bellows' MAX_WATCHDOG_FAILURES, not fixed by the property
 PERIOD_SMALL = 3
-OUTCOMES_V4 = ["ok", "silent", "stopped", "invalid", "reconnect", "late"]
-OUTCOMES = ["ok", "silent-counters", "silent-buffers", "stopped", "invalid", "ok-nobuf", "reconnect", "late"]
+OUTCOMES_V4 = ["ok", "silent", "stopped", "invalid", "reconnect", "late", "overlap-silent", "overlap-invalid"]
+OUTCOMES = ["ok", "silent-counters", "silent-buffers", "stopped", "invalid", "ok-nobuf", "reconnect", "late", "overlap-silent", "overlap-invalid"]
+# "overlap-x": two feeds are started together (the periodic loop and a second caller of watchdog_feed) and both keep-alives fail in
+# the way x: two failures in a row, counted in the order the feeds end.
 # "late": the keep-alive is answered only after the host's command time-out (the reply, under the same sequence number, arrives
 # between two feeds): the feed has failed by time-out; a late reply is not a successful feed.   # ok-nobuf: counters read, the free-buffer value is refused (a successful feed)
 # "reconnect" is not a keep-alive outcome: ControllerApplication.connect() runs again on the same application object between two
@@ -111,6 +113,8 @@ class World:
         t = self.t
         if outcome == "reconnect":
             return self.reconnect()
+        if outcome.startswith("overlap-"):
+            return self.feed_overlap(outcome.split("-", 1)[1])
         self.viol = []
         self.mute = set()
         late = outcome == "late"
@@ -212,6 +216,31 @@ class World:
             vals = [] if name == "nop" else [[k % 7 for k in range(len(list(t.EmberCounterType)))]]
             self.ncp.deliver(ezspenv.enc_response_hdr(self.ncp.framing, seq, fid) + ezspenv.encode_values(rx, vals))
             self.loop.settle()
+
+    def feed_overlap(self, how):
+        self.viol = []
+        self.mute = {"invalid"} if how == "invalid" else ({"nop"} if self.version == 4 else {"counters"})
+        self.ezsp.start_ezsp()
+        t0 = self.loop.time()
+        tasks = [self.loop.create_task(self.app._watchdog_feed()) for _ in range(2)]
+        self.loop.run_until_idle(horizon=t0 + 60.0)
+        for k, task in enumerate(tasks):
+            self.ordinal += 1
+            if not task.done():
+                self.viol.append(f"overlapping feed #{k + 1} ({how}) never finished")
+                task.cancel()
+                continue
+            self.run += 1
+            raised = task.exception() is not None
+            want = self.run > MAX_TOLERATED
+            if raised != want:
+                self.viol.append(f"two feeds in flight together, both keep-alives fail ({how}): feed #{self.ordinal} ({self.run} consecutive failures) "
+                                 f"{'raised ' + type(task.exception()).__name__ if raised else 'returned normally'}, expected "
+                                 f"{'a restart request (exception)' if want else 'a normal return'}")
+            elif raised and not isinstance(task.exception(), (asyncio.TimeoutError, self.A.EzspError)):
+                self.viol.append(f"overlapping feed raised {type(task.exception()).__name__}: {task.exception()}")
+        self.loop.settle()
+        self.phases = {(ph + 2) % self.period for ph in self.phases}
 
     def renegotiate(self):
         """What a reset + version negotiation on the same EZSP object does to the protocol handler (EZSP.reset installs the legacy
